@@ -438,6 +438,21 @@ pub fn tfm(rng: &mut Rng, s: &[usize]) -> Value {
     )
     .into()
 }
+/// Small-integer-valued floats: sums of products are exact, so any difference is a wrong element.
+pub fn tfi(rng: &mut Rng, s: &[usize], lo: i64, hi: i64) -> Value {
+    Tensor::from_data(s, (0..numel(s)).map(|_| rng.range_i64(lo, hi) as f32).collect::<Vec<f32>>()).into()
+}
+/// (M, K, N) with one "wide" side: two or more full packing panels along N (or along M).
+pub fn wide_mkn(rng: &mut Rng) -> (usize, usize, usize) {
+    let small = *rng.pick(&[2usize, 3, 5]);
+    let wide = *rng.pick(&[63usize, 64, 65, 96, 130]);
+    let k = 1 + rng.usize_below(5);
+    if rng.chance(3, 4) {
+        (small, k, wide)
+    } else {
+        (wide, k, small)
+    }
+}
 pub fn ti(rng: &mut Rng, s: &[usize]) -> Value {
     Tensor::from_data(s, (0..numel(s)).map(|_| ri32(rng)).collect::<Vec<i32>>()).into()
 }
@@ -504,7 +519,7 @@ pub const OTHER: &[&str] = &[
     "ReduceLogSumExp", "ReduceSumSquare", "ArgMax", "ArgMin", "CumSum", "TopK", "Trilu", "DepthToSpace", "OneHot",
     "NonZero", "Einsum", "Shape", "Size", "Range", "EyeLike", "ReverseSequence", "MatMulInteger",
     "DequantizeLinear", "QuantizeLinear", "DynamicQuantizeLinear", "GeluMs", "QuickGelu", "BiasGelu", "FastGelu",
-    "SequenceInsert", "SequenceErase", "GridSample", "Dropout", "ConstantOfShape", "FusedSilu", "FusedAddSoftmax",
+    "SequenceInsert", "SequenceErase", "GridSample", "Dropout", "ConstantOfShape", "FusedSilu", "FusedAddSoftmax", "MatMulWide", "GemmWide", "MatMulIntegerWide", "EinsumWide", "ConvWide",
 ];
 
 pub fn all_names() -> Vec<&'static str> {
@@ -1186,6 +1201,60 @@ pub fn gen(name: &'static str, rng: &mut Rng) -> Option<Case> {
             let sh = rshape(rng, 3, 0);
             Case::new(name, vec![Some(ivec(&sh.iter().map(|&x| x as i64).collect::<Vec<_>>()))]).data(&[])
         }
+        "MatMulWide" => {
+            let (m, k, n) = wide_mkn(rng);
+            let (mut a, mut b) = (vec![m, k], vec![k, n]);
+            match rng.below(4) {
+                0 => {
+                    a.insert(0, 2);
+                    b.insert(0, 2);
+                }
+                1 => a.insert(0, 2),
+                _ => {}
+            }
+            Case::new(name, vec![Some(tfi(rng, &a, -3, 3)), Some(tfi(rng, &b, -3, 3))]).onnx("MatMul")
+        }
+        "GemmWide" => {
+            let (m, k, n) = wide_mkn(rng);
+            let ta = rng.chance(1, 2);
+            let tb = rng.chance(1, 2);
+            let a = if ta { vec![k, m] } else { vec![m, k] };
+            let b = if tb { vec![n, k] } else { vec![k, n] };
+            let mut v = vec![Some(tfi(rng, &a, -3, 3)), Some(tfi(rng, &b, -3, 3))];
+            if rng.chance(1, 2) {
+                v.push(Some(tfi(rng, &[n], -3, 3)));
+            }
+            Case::new(name, v)
+                .onnx("Gemm")
+                .attr("transA", Attr::Int(ta as i64))
+                .attr("transB", Attr::Int(tb as i64))
+        }
+        "MatMulIntegerWide" => {
+            let (m, k, n) = wide_mkn(rng);
+            Case::new(name, vec![Some(tu8(rng, &[m, k])), Some(ti8(rng, &[k, n]))]).onnx("MatMulInteger")
+        }
+        "EinsumWide" => {
+            let (m, k, n) = wide_mkn(rng);
+            let (eq, a, b): (&str, Vec<usize>, Vec<usize>) = match rng.below(3) {
+                0 => ("ij,jk->ik", vec![m, k], vec![k, n]),
+                1 => ("bij,bjk->bik", vec![2, m, k], vec![2, k, n]),
+                _ => ("ij,kj->ik", vec![m, k], vec![n, k]),
+            };
+            Case::new(name, vec![Some(tfi(rng, &a, -3, 3)), Some(tfi(rng, &b, -3, 3))])
+                .onnx("Einsum")
+                .attr("equation", s(eq))
+        }
+        "ConvWide" => {
+            // convolution as a gemm whose N dimension is the number of output positions
+            let (ci, co) = (1 + rng.usize_below(3), *rng.pick(&[2usize, 3, 5]));
+            let (h, w) = (8 + rng.usize_below(4), 9 + rng.usize_below(6));
+            let kk = if rng.chance(1, 2) { 1 } else { 3 };
+            let mut v = vec![Some(tfi(rng, &[1, ci, h, w], -3, 3)), Some(tfi(rng, &[co, ci, kk, kk], -2, 2))];
+            if rng.chance(1, 2) {
+                v.push(Some(tfi(rng, &[co], -3, 3)));
+            }
+            Case::new(name, v).onnx("Conv")
+        }
         "FusedSilu" => {
             let sh = rshape(rng, 4, 0);
             Case::new(name, vec![Some(tf(rng, &sh))])
@@ -1245,6 +1314,12 @@ pub enum Var {
     Spare,
     Permuted,
     Strided,
+    /// Storage holds the last two axes swapped; the view swaps them back (column stride ≠ 1).
+    Transposed,
+    /// Every 2nd column of a twice as wide storage (last-axis stride 2).
+    ColStep,
+    /// Every 2nd row of a twice as tall storage (second-to-last-axis stride doubled).
+    RowStep,
 }
 pub const VARS: [Var; 5] = [Var::Contig, Var::VecCap, Var::Spare, Var::Permuted, Var::Strided];
 
@@ -1279,6 +1354,54 @@ pub fn variant_t<T: Copy + Default>(t: &Tensor<T>, var: Var, rng: &mut Rng) -> T
             let mut p = t.permuted(&perm).to_tensor();
             p.permute(&inv);
             p
+        }
+        Var::Transposed => {
+            let n = shape.len();
+            if n < 2 {
+                return t.to_tensor();
+            }
+            let mut perm: Vec<usize> = (0..n).collect();
+            perm.swap(n - 1, n - 2);
+            let mut p = t.permuted(&perm).to_tensor();
+            p.permute(&perm);
+            p
+        }
+        Var::ColStep | Var::RowStep => {
+            let n = shape.len();
+            if n == 0 || (var == Var::RowStep && n < 2) {
+                return t.to_tensor();
+            }
+            let ax = if var == Var::ColStep { n - 1 } else { n - 2 };
+            // contiguous strides of the storage shape (axis `ax` doubled), logical stride on `ax` doubled
+            let mut big = shape.clone();
+            big[ax] *= 2;
+            let mut strides = vec![0usize; n];
+            let mut acc = 1usize;
+            for d in (0..n).rev() {
+                strides[d] = acc;
+                acc *= big[d].max(1);
+            }
+            strides[ax] *= 2;
+            let len = if shape.iter().any(|&s| s == 0) {
+                0
+            } else {
+                shape.iter().zip(&strides).map(|(&s, &st)| (s - 1) * st).sum::<usize>() + 1
+            };
+            let mut data = vec![T::default(); len + 1];
+            let src: Vec<T> = t.iter().copied().collect();
+            let mut idx = vec![0usize; n];
+            for x in src {
+                let off: usize = idx.iter().zip(&strides).map(|(&i, &s)| i * s).sum();
+                data[off] = x;
+                for d in (0..n).rev() {
+                    idx[d] += 1;
+                    if idx[d] < shape[d] {
+                        break;
+                    }
+                    idx[d] = 0;
+                }
+            }
+            Tensor::from_data_with_strides(&shape, data, &strides).expect("stepped")
         }
         Var::Strided => {
             // contiguous strides scaled by 2 (gaps between all elements)
